@@ -191,15 +191,28 @@ func (g *gen) call0(x *ssa.Call, st State, reach string) string {
 				written[comp] = true
 			}
 		}
+		oldWritten, classified := g.prog.dryOld[callee]
+		top0 := g.stGet(st, "alloctop")
 		for _, comp := range sortedKeys(written) {
 			if !g.importComp(comp) {
 				continue
 			}
 			if comp == "alloctop" {
-				top := g.stGet(st, "alloctop")
 				n := g.ctx.fresh("alloctop", "Int")
-				g.ctx.assume("(>= " + n + " " + top + ")")
+				g.ctx.assume("(>= " + n + " " + top0 + ")")
 				g.stSet(st, "alloctop", n)
+				continue
+			}
+			if classified && !oldWritten[comp] && strings.HasPrefix(g.ctx.compSort[comp], "(Array Int ") {
+				// the callee writes this component only on objects it allocates itself: objects that
+				// exist at the call keep their contents
+				before := g.stGet(st, comp)
+				saved := g.freshWrite
+				g.freshWrite = true
+				g.havocComp(st, comp)
+				g.freshWrite = saved
+				after := g.stGet(st, comp)
+				g.ctx.assume("(forall ((r Int)) (! (=> (< r " + top0 + ") (= (select " + after + " r) (select " + before + " r))) :pattern ((select " + after + " r))))")
 				continue
 			}
 			g.havocComp(st, comp)
@@ -282,6 +295,9 @@ func (g *gen) havocThrough(a Val, t types.Type, st State, reach string, depth in
 		es := g.ctx.sortOf(u.Elem())
 		if _, isBasic := u.Elem().Underlying().(*types.Basic); !isBasic {
 			return
+		}
+		if a.T == "(mk-slice 0 0 0 0)" {
+			return // nil slice: no elements to write
 		}
 		// contents of the slice window may change
 		comp := g.ctx.elemComp(es)
@@ -545,8 +561,16 @@ func (g *gen) appendCall(x *ssa.Call, st State, reach string) {
 	// n == 0 on a nil slice keeps nil; modelled as non-nil empty result only when something is appended
 	res := "(mk-slice " + resRef + " " + so + " (+ " + sl + " " + n + ") (ite (and " + fits + " (not (= " + sr + " 0))) " + sc + " " + newCap + "))"
 	res = "(ite (and (= " + n + " 0) (= " + sr + " 0)) " + s.T + " " + res + ")"
+	// appending to a slice this execution allocated (or to the nil slice) writes a fresh array either way
+	srcFresh := g.freshRefs[sr] || s.T == "(mk-slice 0 0 0 0)"
+	if srcFresh {
+		g.freshRefs[resRef] = true
+	}
 	g.locWrite(st, &Loc{Comp: comp, Idx: []string{resRef}}, newArr)
 	g.setVal(x, res)
+	if srcFresh {
+		g.freshRefs["(s.ref "+g.vals[x].T+")"] = true
+	}
 }
 
 // constLen: the static length of a variadic argument slice built from a fixed-size array.
@@ -828,9 +852,11 @@ func (g *gen) callInline(x *ssa.Call, callee *ssa.Function, args []Val, st State
 	sub.inlineDepth = g.inlineDepth + 1
 	sub.fnKey = g.fnKey + "/" + funcKey(callee)
 	sub.counters = g.counters
+	sub.freshRefs, sub.writtenOld = g.freshRefs, g.writtenOld
 	sub.entry = st.clone()
 	if !g.dry {
 		sub.dryWritten = g.prog.dryWrittenFor(callee)
+		sub.dryOldB = g.prog.dryOldB[callee]
 	}
 	for i, p := range callee.Params {
 		if i < len(args) {
